@@ -38,6 +38,10 @@ class Cell:
         self.a, self.b, self.c, self.d = a, b, c, d
 
 
+class Depends(Exception):
+    """The guard is not a function of the order type: it looks at characters the prefix rules do not mention."""
+
+
 def decide(test, cell, names):
     """Truth value of a guard in an order-type cell."""
     length, low, high, part = names['length'], names['low'], names['high'], names['part']
@@ -58,6 +62,11 @@ def decide(test, cell, names):
             return 'HIGH'
         if s in ('%s[:%s]' % (part, length), '%s[0:%s]' % (part, length)):
             return 'P'
+        if s == part:
+            return 'PART'           # the whole remainder, not cut to the length of the range
+        if isinstance(n, ast.BinOp) and isinstance(n.op, ast.Add) and src(n.left) == high and isinstance(n.right, ast.Constant) \
+                and isinstance(n.right.value, str) and n.right.value:
+            return ('HIGH+', n.right.value)
         raise AnalysisError('%s: _find guard uses the term `%s`, which is not one of len(part), length, low, high, part[:length]' % (FILE, s))
 
     def rel(x, y):
@@ -66,6 +75,26 @@ def decide(test, cell, names):
             return table[(x, y)]
         if (y, x) in table:
             return -table[(y, x)]
+        # comparisons of the uncut remainder: decided by the prefix unless the prefix equals the bound
+        if cell.a >= 0:
+            if (x, y) == ('LOW', 'PART') or (y, x) == ('LOW', 'PART'):
+                r_ = cell.b if cell.b != 0 else (0 if cell.a == 0 else -1)
+                return r_ if x == 'LOW' else -r_
+            if (x, y) == ('PART', 'HIGH') or (y, x) == ('PART', 'HIGH'):
+                r_ = cell.c if cell.c != 0 else (0 if cell.a == 0 else 1)
+                return r_ if x == 'PART' else -r_
+            for p_, q_ in ((x, y), (y, x)):
+                if p_ == 'PART' and isinstance(q_, tuple) and q_[0] == 'HIGH+':
+                    if cell.c != 0:
+                        r_ = cell.c
+                    elif cell.a == 0:
+                        r_ = -1
+                    else:
+                        raise Depends('the remainder is compared as a whole with %s + %r: when its first %s characters equal %s the outcome depends on the '
+                                      'characters that follow (anything greater than %r is not matched)' % (high, q_[1], length, high, q_[1]))
+                    return r_ if p_ == x else -r_
+        elif 'PART' in (x, y):
+            return 0 if False else (-1 if x == 'PART' else 1)      # shorter than the range: guarded by the length test, any order
         raise AnalysisError('%s: _find compares %s with %s, which is not an atom of the decision table' % (FILE, x, y))
 
     if isinstance(test, ast.BoolOp):
@@ -218,7 +247,12 @@ def check_find(rep, methods):
         if (a > 0 and d <= 0) or (a == 0 and d < 0):
             continue
         cell = Cell(a, b, c, d)
-        acts = run_body(loop.body, cell, names)
+        desc = 'len(part)%slength, low%spart[:length], part[:length]%shigh, len(number)%slength' % tuple('<=>'[x + 1] for x in (a, b, c, d))
+        try:
+            acts = run_body(loop.body, cell, names)
+        except Depends as e:
+            rep.fail('DT.cell', FILE, '_find', 'order type (%s)' % desc, loop.lineno, str(e))
+            continue
         form, problem = normal_form(acts)
         want = spec_actions(a, b, c)
         desc = 'len(part)%slength, low%spart[:length], part[:length]%shigh, len(number)%slength' % tuple('<=>'[x + 1] for x in (a, b, c, d))
@@ -268,6 +302,46 @@ def check_wrappers(rep, methods):
     rep.check(ok, 'DT.split', FILE, 'split', src(b[-1]), split.lineno, 'split() is not the list of first components of info()')
 
 
+def grammar(rep):
+    """DT.grammar: the property pattern reads key="value" with a value that is any run of non-quote characters, the empty
+    run included (shipped files contain region="" and name=""), and the key class is not narrowed below [0-9a-zA-Z-_]."""
+    import re._parser as P
+    import re._constants as C
+    path = os.path.join(REPO, FILE)
+    with open(path, encoding='utf-8') as fh:
+        tree = ast.parse(fh.read())
+    pat = None
+    for st in tree.body:
+        if isinstance(st, ast.Assign) and len(st.targets) == 1 and isinstance(st.targets[0], ast.Name) and st.targets[0].id == '_prop_re' \
+                and isinstance(st.value, ast.Call) and st.value.args:
+            try:
+                pat = ast.literal_eval(st.value.args[0])
+            except (ValueError, SyntaxError):
+                pat = None
+            line = st.lineno
+    if not isinstance(pat, str):
+        raise AnalysisError('%s: _prop_re is not a literal pattern' % FILE)
+    try:
+        t = P.parse(pat)
+    except Exception as e:
+        raise AnalysisError('%s: _prop_re does not parse: %s' % (FILE, e))
+    groups = {v: k for k, v in t.state.groupdict.items()}
+    val = None
+    for op, av in t:
+        if op is C.SUBPATTERN and groups.get(av[0]) == 'value':
+            val = list(av[3])
+    if val is None:
+        raise AnalysisError('%s: _prop_re has no group named value' % FILE)
+    ok = len(val) == 1 and val[0][0] in (C.MAX_REPEAT, C.MIN_REPEAT) and val[0][1][0] == 0 and val[0][1][1] == C.MAXREPEAT
+    if ok:
+        inner = list(val[0][1][2])
+        ok = len(inner) == 1 and ((inner[0][0] is C.NOT_LITERAL and inner[0][1] == ord('"')) or
+                                  (inner[0][0] is C.IN and inner[0][1][0] == (C.NEGATE, None) and inner[0][1][1:] == [(C.LITERAL, ord('"'))]))
+    rep.check(ok, 'DT.grammar', FILE, '_prop_re', pat, line,
+              'the value of a property is not `any run of characters other than the quote, possibly empty` ([^"]*): properties with an empty or '
+              'unusual value are dropped from the entry without an error', what='value = [^"]*')
+
+
 def check_layout(rep, methods, funcs, names):
     """The 5-field entry layout written by read() must be the one _parse yields and _find unpacks."""
     parse, read = funcs.get('_parse'), funcs.get('read')
@@ -277,6 +351,7 @@ def check_layout(rep, methods, funcs, names):
     if len(ys) != 1 or not isinstance(ys[0].value, ast.Tuple) or len(ys[0].value.elts) != 6:
         raise AnalysisError('%s:%d _parse does not yield one 6-tuple (indent, length, low, high, props, children)' % (FILE, parse.lineno))
     y = [src(e) for e in ys[0].value.elts]
+    grammar(rep)
     # length field must be len(low field)
     rep.check(y[1] == 'len(%s)' % y[2], 'DT.layout', FILE, '_parse', src(ys[0]), ys[0].lineno,
               'the length field is %s, not the length of the low endpoint %s' % (y[1], y[2]))
@@ -305,6 +380,21 @@ def check_layout(rep, methods, funcs, names):
     loop = loops[0]
     t = [src(e) for e in loop.target.elts]
     apps = [n for n in ast.walk(loop) if isinstance(n, ast.Call) and isinstance(n.func, ast.Attribute) and n.func.attr == 'append']
+    # one entry per parsed range, stored unconditionally, and never modified once stored (the ranges of one line share one
+    # properties dict: changing it through one entry changes them all)
+    direct = [st for st in loop.body if isinstance(st, ast.Expr) and st.value in apps]
+    muts = [n for n in ast.walk(loop) if isinstance(n, ast.Call) and isinstance(n.func, ast.Attribute) and n.func.attr in ('update', 'extend', 'insert', 'pop', 'clear', 'setdefault')
+            and isinstance(n.func.value, ast.Subscript)]
+    if apps and not direct:
+        rep.fail('DT.tree', FILE, 'read', src(apps[0]), apps[0].lineno,
+                 'read() stores an entry only on one branch of a condition: a parsed range that takes the other branch is not in the tree as a line of its own, '
+                 'so a lookup does not return it (or returns it merged into another entry)')
+    for n in muts:
+        rep.fail('DT.tree', FILE, 'read', src(n)[:100], n.lineno,
+                 'read() modifies an entry that is already stored (%s): the ranges of one line share their properties dict, so every sibling range of '
+                 'that line changes too' % src(n.func)[:60])
+    if (apps and not direct) or muts:
+        return
     if len(apps) != 1 or len(apps[0].args) != 1 or not isinstance(apps[0].args[0], (ast.List, ast.Tuple)):
         raise AnalysisError('%s:%d read() does not append one entry per parsed range' % (FILE, read.lineno))
     entry = [src(e) for e in apps[0].args[0].elts]
